@@ -293,3 +293,49 @@ REG.contract('C01', II, 'Interpreter.func_set_variable', params={'self': IVarS, 
              raises={'InvalidCode': 'True', 'MesonException': 'True'}, exact_raises=False,
              method_effects={'set_variable': {'raises': ['MesonException']}}, dropped=DROPF, floor=2,
              note='set_variable(name, value): after the name check, exactly one binding of that name to the (holderified) value')
+
+# ---- the dispatch of evaluate_statement: each kind of syntax-tree node goes to its own evaluation method, once, with the node itself,
+# and the value of the statement is the value that method returns (assignments, += and foreach have none)
+_DISPATCH = {'FunctionNode': ('function_call', True), 'PlusAssignmentNode': ('evaluate_plusassign', False), 'AssignmentNode': ('assignment', False),
+             'MethodNode': ('method_call', True), 'IfClauseNode': ('evaluate_if', True), 'ComparisonNode': ('evaluate_comparison', True),
+             'ArrayNode': ('evaluate_arraystatement', True), 'DictNode': ('evaluate_dictstatement', True), 'AndNode': ('evaluate_andstatement', True),
+             'OrNode': ('evaluate_orstatement', True), 'NotNode': ('evaluate_notstatement', True), 'UMinusNode': ('evaluate_uminusstatement', True),
+             'ArithmeticNode': ('evaluate_arithmeticstatement', True), 'ForeachClauseNode': ('evaluate_foreach', False), 'IndexNode': ('evaluate_indexing', True),
+             'TernaryNode': ('evaluate_ternary', True), 'TestCaseClauseNode': ('evaluate_testcase', True)}
+_DME = {m: {'returns': Opt(Obj), 'raises': ['MesonException']} for m, _r in _DISPATCH.values()}
+_DALL = "[e for e in __trace__ if e[0] not in ('setattr',)]"
+for _cls, (_m, _ret) in _DISPATCH.items():
+    REG.contract('C01', IB, 'InterpreterBase.evaluate_statement', variant=_cls,
+                 params={'self': Struct('InterpreterBase', 'mesonbuild.interpreterbase.interpreterbase:InterpreterBase', current_node=Obj), 'cur': Struct(_cls, f'mesonbuild.mparser:{_cls}')},
+                 ensures=[f"len({_DALL}) == 1 and {_DALL}[0][0] == '{_m}' and {_DALL}[0][1] is cur",
+                          (f"result is {_DALL}[0][-1]" if _ret else "result is None"),
+                          "new(self).current_node is cur"],
+                 raises={'MesonException': 'True'}, exact_raises=False, method_effects=_DME, modifies=['self.current_node'], floor=3,
+                 note=f'a {_cls} is evaluated by {_m}, once, and ' + ('its value is the value of the statement' if _ret else 'the statement has no value'))
+for _cls, _exc in (('ContinueNode', 'ContinueRequest'), ('BreakNode', 'BreakRequest')):
+    REG.contract('C01', IB, 'InterpreterBase.evaluate_statement', variant=_cls,
+                 params={'self': Struct('InterpreterBase', 'mesonbuild.interpreterbase.interpreterbase:InterpreterBase', current_node=Obj), 'cur': Struct(_cls, f'mesonbuild.mparser:{_cls}')},
+                 ensures=['False'], raises={_exc: 'True'}, method_effects=_DME, modifies=['self.current_node'], floor=1,
+                 note=f'`{_cls[:-4].lower()}` always raises {_exc} (caught by the enclosing foreach)')
+_BASE_CN = Struct('InterpreterBase', 'mesonbuild.interpreterbase.interpreterbase:InterpreterBase', current_node=Obj)
+_LME = dict(_DME, **{'get_variable': {'returns': Obj, 'raises': ['MesonException']}, '_holderify': {'returns': Obj, 'raises': []},
+                     'evaluate_fstring': {'returns': Obj, 'raises': ['MesonException']}, 'evaluate_multiline_fstring': {'returns': Obj, 'raises': ['MesonException']},
+                     'evaluate_statement': {'returns': Opt(Obj), 'raises': ['MesonException']}})
+REG.contract('C01', IB, 'InterpreterBase.evaluate_statement', variant='IdNode', params={'self': _BASE_CN, 'cur': Struct('IdNode', 'mesonbuild.mparser:IdNode', value=Str)},
+             ensures=[f"len({_DALL}) == 1 and {_DALL}[0][0] == 'get_variable' and {_DALL}[0][1] == cur.value and result is {_DALL}[0][-1]"],
+             raises={'MesonException': 'True'}, exact_raises=False, method_effects=_LME, modifies=['self.current_node'], floor=2,
+             note='an identifier evaluates to the value object bound to that name (no copy: values are immutable)')
+for _cls, _vs in (('BooleanNode', Bool), ('NumberNode', Int)):
+    REG.contract('C01', IB, 'InterpreterBase.evaluate_statement', variant=_cls, params={'self': _BASE_CN, 'cur': Struct(_cls, f'mesonbuild.mparser:{_cls}', value=_vs)},
+                 ensures=[f"len({_DALL}) == 1 and {_DALL}[0][0] == '_holderify' and {_DALL}[0][1] == cur.value and result is {_DALL}[0][-1]"],
+                 method_effects=_LME, modifies=['self.current_node'], floor=2, note='a literal evaluates to the holder of its value')
+for _fs, _ml, _m in ((False, False, '_holderify'), (False, True, '_holderify'), (True, False, 'evaluate_fstring'), (True, True, 'evaluate_multiline_fstring')):
+    REG.contract('C01', IB, 'InterpreterBase.evaluate_statement', variant=f'StringNode/fstring={_fs}/multiline={_ml}',
+                 params={'self': _BASE_CN, 'cur': Struct('StringNode', 'mesonbuild.mparser:StringNode', value=Str, is_fstring=Const(_fs), is_multiline=Const(_ml))},
+                 ensures=[f"len({_DALL}) == 1 and {_DALL}[0][0] == '{_m}' and " + (f"{_DALL}[0][1] is cur" if _fs else f"{_DALL}[0][1] == cur.value") + f" and result is {_DALL}[0][-1]"],
+                 raises={'MesonException': 'True'}, exact_raises=False, method_effects=_LME, modifies=['self.current_node'], floor=2,
+                 note="a plain string literal evaluates to the holder of its (already decoded) value — placeholders are substituted in f-strings only")
+REG.contract('C01', IB, 'InterpreterBase.evaluate_statement', variant='ParenthesizedNode', params={'self': _BASE_CN, 'cur': Struct('ParenthesizedNode', 'mesonbuild.mparser:ParenthesizedNode', inner=Obj)},
+             ensures=[f"len({_DALL}) == 1 and {_DALL}[0][0] == 'evaluate_statement' and {_DALL}[0][1] is cur.inner and result is {_DALL}[0][-1]"],
+             raises={'MesonException': 'True'}, exact_raises=False, method_effects=_LME, modifies=['self.current_node'], floor=2,
+             note='parentheses only group: the value is the value of the inner expression')
